@@ -117,7 +117,7 @@ Proof.
   apply (IH _ _ _ H S3 Hn3).
 Qed.
 
-(** [first_byte] touches only buffer, byte position, source and log *)
+(** [first_byte] touches only buffer, position (byte and line), source and log *)
 Lemma fa_first_byte_frame ffuel : forall fuel r ln r' res, fa_first_byte fuel ffuel r ln = (r', res) ->
   start r' = start r /\ spos r' = spos r /\ seqpos r' = seqpos r /\ st r' = st r /\
   (forall l p b, res = FbSome l p b -> p < length (buf r')).
@@ -131,7 +131,7 @@ Proof.
   - inversion H; subst. splits; auto. intros l0 p0 b0 Hq. inversion Hq; subst.
     rewrite fb_scan_direct in Eb. apply fb_direct_inl in Eb. destruct Eb as [_ Hnth].
     rewrite Nat.sub_0_r in Hnth. apply nth_error_Some. rewrite Hnth. discriminate.
-  - apply IH in H. cbn [buf start spos seqpos st set_buf set_pbyte] in H. destruct H as (A & B & C & D & E). splits; auto; congruence.
+  - apply IH in H. cbn [buf start spos seqpos st set_buf set_pbyte set_pline] in H. destruct H as (A & B & C & D & E). splits; auto; congruence.
 Qed.
 
 Lemma fa_init_sane fuel ffuel r r' res : fa_init fuel ffuel r = (r', res) -> FaOff r -> st r = FNew ->
@@ -141,7 +141,7 @@ Lemma fa_init_sane fuel ffuel r r' res : fa_init fuel ffuel r = (r', res) -> FaO
   end.
 Proof.
   unfold fa_init. intros H (S1 & S2 & S3 & S4) Hn. destruct (S4 Hn) as (A & B & C).
-  destruct (fa_first_byte fuel ffuel r 0) as [r1 fb] eqn:E1.
+  destruct (fa_first_byte fuel ffuel r (pline r)) as [r1 fb] eqn:E1.
   destruct (fa_first_byte_frame _ _ _ _ _ _ E1) as (Hs & Hsp & Hsq & Hst & Hpos).
   assert (Sane1 : forall s, FaOff (set_st r1 s)).
   { intros s. unfold FaOff. fa_simpl. rewrite Hs, Hsp, Hsq, A, B, C. splits; auto; lia. }
@@ -263,8 +263,9 @@ Theorem fa_seek_sane ffuel r line byte_ r' o : fa_seek ffuel r line byte_ = (r',
 Proof.
   unfold fa_seek. intros H S.
   destruct ((0 <=? Z.of_nat (start r) + (Z.of_nat byte_ - Z.of_nat (pbyte r)))%Z &&
-            (Z.of_nat (start r) + (Z.of_nat byte_ - Z.of_nat (pbyte r)) <? Z.of_nat (length (buf r)))%Z) eqn:Ec.
-  { apply andb_true_iff in Ec. destruct Ec as [E1 E2]. apply Z.leb_le in E1. apply Z.ltb_lt in E2.
+            (Z.of_nat (start r) + (Z.of_nat byte_ - Z.of_nat (pbyte r)) <? Z.of_nat (length (buf r)))%Z && negb (fa_state_eqb (st r) FNew)) eqn:Ec.
+  { apply andb_true_iff in Ec. destruct Ec as [Ec _].
+    apply andb_true_iff in Ec. destruct Ec as [E1 E2]. apply Z.leb_le in E1. apply Z.ltb_lt in E2.
     inversion H; subst. split; [|discriminate]. right. unfold FaOff. fa_simpl. splits; auto; try lia.
     intros Hx; discriminate Hx. }
   destruct (src_seek (src r) byte_) as [s' res] eqn:Es.
